@@ -22,6 +22,10 @@ from habutax import form as hb_form          # noqa: E402
 from habutax import inputs as hb_inputs      # noqa: E402
 from habutax import fields as hb_fields      # noqa: E402
 from habutax import enum as hb_enum          # noqa: E402
+from habutax import pdf_fields as hb_pdf_fields  # noqa: E402
+import os                                     # noqa: E402
+
+TEMPLATE = os.path.join(os.path.dirname(os.path.abspath(__file__)), 'synth_template.pdf')
 
 SYNTH_YEAR = 9999
 
@@ -298,6 +302,19 @@ def _make_field(line, enums):
     raise core.HarnessError(t)
 
 
+def _make_pdf_field(m):
+    k = m['kind']
+    if k == 'text':
+        return hb_pdf_fields.TextPDFField(m['pdf_name'], m['line'], max_length=m.get('max_length'))
+    if k == 'button':
+        if m.get('negate'):
+            return hb_pdf_fields.ButtonPDFField(m['pdf_name'], m['line'], m['true_value'], value_fn=lambda s, v, f: not v)
+        return hb_pdf_fields.ButtonPDFField(m['pdf_name'], m['line'], m['true_value'])
+    if k == 'choice':
+        return hb_pdf_fields.ChoicePDFField(m['pdf_name'], m['line'], list(m['choices']))
+    raise core.HarnessError(k)
+
+
 def build_enums(world):
     return {name: hb_enum.make(name, {m: f'{name} member {m}' for m in members})
             for name, members in sorted(world['enums'].items())}
@@ -325,10 +342,18 @@ def _build_class(fs, enums):
             ins = [_make_input(s, enums) for s in fs['inputs']]
             req = [_make_field(l, enums) for l in fs['required']]
             opt = [_make_field(l, enums) for l in fs['optional']]
-            hb_form.Form.__init__(self, type(self), ins, req, opt, **kwargs)
+            pdf = [_make_pdf_field(m) for m in fs.get('pdf', [])]
+            hb_form.Form.__init__(self, type(self), ins, req, opt, pdf_fields=pdf,
+                                  pdf_file=(TEMPLATE if fs.get('pdf') else None), **kwargs)
+
+        files = fs.get('files', 'always')
 
         def needs_filing(self, values):
-            return True
+            if files == 'always':
+                return True
+            if files == 'never':
+                return False
+            return bool(values[f'{self.name()}.{files["line"]}'])
         ns = {'__init__': __init__, 'needs_filing': needs_filing}
     ns.update({
         'form_name': fs['name'],
